@@ -50,7 +50,7 @@ PLANS = {
                "cases: model states + seeded histories with a twin scan (same world, fresh controller) at every scan; non-trivial: a scan inside a cool-down "
                "(incl. below-minimum and removable nodes), or a scan after the cool-down in which the group is acted on again",
                ["C02:scan-in-cooldown", "C02:cooldown-below-min", "C02:cooldown-removable", "C02:acts-after-cooldown", "C02:twin-acts", "C02:refresh-failed-in-cooldown", "C02:cloud-call-took-a-tick"]),
-    "C03": ctl(["updown", "auto", "all_scale"], ["updown", "updown@v2", "updown@v3", "auto", "lock", "all_scale"],
+    "C03": ctl(["updown", "auto", "conflict", "all_scale"], ["updown", "updown@v2", "updown@v3", "auto", "lock", "conflict", "all_scale"],
                [D("down", faults=10), D("mix")],
                [D("down", n=60, steps=100, procs=8, faults=10), D("mix", n=60, steps=100, procs=8)],
                "non-trivial: a scan that tainted nodes (in particular down to exactly the minimum, or under auto-discovered bounds) or ran the below-minimum recovery",
@@ -60,7 +60,7 @@ PLANS = {
                [D("up", n=60, steps=100, procs=8, faults=8), D("mix", n=60, steps=100, procs=8)],
                "non-trivial: a scan that asked the cloud for capacity (with max_nodes below / above the cloud maximum, landing on the bound or not)",
                ["C04:request", "C04:request-on-bound", "C04:max_nodes-below-cloud-max", "C04:max_nodes-above-cloud-max"]),
-    "C06": ctl(["updown", "all_scale"], ["updown", "updown@v2", "updown@v3", "updown@v4", "auto", "all_scale"],
+    "C06": ctl(["updown", "all_scale"], ["updown", "updown@v2", "updown@v3", "updown@v4", "auto", "conflict", "all_scale"],
                [D("down", faults=0, dry=0), D("up", faults=0, dry=0, fine=True), D("mix", faults=0, dry=0, fine=True), D("down", faults=40, dry=0, nodes=8)],
                [D("down", n=60, steps=100, procs=6, faults=0, dry=0), D("up", n=60, steps=100, procs=6, faults=0, dry=0, fine=True), D("mix", n=60, steps=100, procs=6, faults=0, dry=0, fine=True), D("down", n=60, steps=100, procs=6, faults=40, dry=0, nodes=8)],
                "non-trivial: a fault-free scan of an unlocked, in-bounds group, classified by the exact band of max(cpu%, mem%) (incl. exactly on a threshold) and by the starve / max-age triggers",
@@ -70,7 +70,7 @@ PLANS = {
                [D("up", n=60, steps=100, procs=8, faults=25, lag=True), D("mix", n=60, steps=100, procs=8, faults=20, lag=True)],
                "non-trivial: a scale-up scan (band decision or below-minimum recovery), esp. with tainted nodes reused, capacity bought after reuse or after a same-scan removal, creation-time ties",
                ["C07:scale-up", "C07:reused", "C07:reused-and-bought", "C07:removed-then-bought", "C07:ties", "C07:stale-view-lists-a-vanished-tainted-node"]),
-    "C08": ctl(["updown", "all_scale"], ["updown", "updown@v2", "updown@v3", "lag", "all_scale"],
+    "C08": ctl(["updown", "all_scale"], ["updown", "updown@v2", "updown@v3", "lag", "conflict", "all_scale"],
                [D("down", faults=30, nodes=8), D("mix", faults=20)],
                [D("down", n=60, steps=100, procs=8, faults=30, nodes=8), D("mix", n=60, steps=100, procs=8, faults=20)],
                "non-trivial: a scan that tainted nodes, esp. leaving some untainted, with creation-time ties, with a failed write skipped",
@@ -89,7 +89,7 @@ PLANS = {
                 D("annotlate", n=64, steps=60, procs=2, par=32, groups=1, faults=0, dry=0, realtime="4s")],
                "non-trivial: a scan of a group with a protected node: kept although expired, others removed next to it, protected node tainted / untainted",
                ["C10:protected-present", "C10:protected-expired-kept", "C10:others-removed", "C10:protected-untainted", "C10:twin-without-annotation"]),
-    "C11": ctl(["dry"], ["dry"],
+    "C11": ctl(["dry", "drybad"], ["dry", "drybad"],
                [D("mix", dry=60), D("reap", dry=60), D("up", dry=60)],
                [D("mix", n=50, steps=100, procs=6, dry=60), D("reap", n=50, steps=100, procs=6, dry=60), D("up", n=50, steps=100, procs=6, dry=60)],
                "non-trivial: a scan of a dry-mode group, by the branch the scan took (scale-up, scale-down, reaping, below-minimum, from zero) and switch (global / group)",
@@ -99,7 +99,7 @@ PLANS = {
                [D("mix", n=60, steps=100, procs=8, lag=True, faults=10), D("down", n=60, steps=100, procs=8, lag=True, faults=10)],
                "non-trivial: a scan that wrote or removed the escalator taint (object diff of every PUT against the API copy), or met an already tainted node behind a lagging lister view",
                ["C15:taint-write", "C15:untaint-write", "C15:lagging-view-already-tainted", "C15:write-lost-a-race"]),
-    "C20": ctl(["reap", "linger"], ["reap", "updown", "linger", "lag"],
+    "C20": ctl(["reap", "linger", "drybad"], ["reap", "updown", "linger", "lag", "drybad", "swap"],
                [D("mix", odd=True, lag=True, faults=45, enum=15), D("reap", odd=True, faults=45, enum=15), D("lock", odd=True, faults=30, enum=20)],
                [D("mix", n=60, steps=100, procs=8, odd=True, lag=True, faults=45, enum=15, enum2=True), D("reap", n=60, steps=100, procs=8, odd=True, faults=45, enum=15, enum2=True),
                 D("lock", n=40, steps=100, procs=8, odd=True, faults=30, enum=20, enum2=True)],
@@ -131,7 +131,7 @@ SMALL_T = ("MCAws.tla", "MCAws.cfg", {})
 PLANS["C17"] = dict(kind="func", stages=[aws_stage([SMALL_Q, GRID_Q], [SMALL_T, GRID_T], max_q=900)],
                     rule="cases: every terminal behaviour of the small-step fleet model (size x fault point) and every point of the (min, max, desired, instances, d, "
                          "lifecycle, overrides, subnets) grid, each run through the real NodeGroup.IncreaseSize; non-trivial: every case (each is a distinct input)",
-                    required_facts=["fleet", "set-desired", "rejected", "fleet-success", "fleet-attach-several-batches", "del-then-increase"], assumptions=AWS_ASSUMPTIONS)
+                    required_facts=["fleet", "set-desired", "rejected", "fleet-success", "fleet-attach-several-batches", "del-then-increase", "fleet-second-scale-up-other-delta"], assumptions=AWS_ASSUMPTIONS)
 PLANS["C18"] = dict(kind="func", stages=[aws_stage([SMALL_Q, GRID_Q], [SMALL_T, GRID_T], max_q=900)],
                     rule="cases: every terminal behaviour of the small-step fleet model: fleet sizes across the 20 and 1000 batch limits x {never ready, k-th attach fails for every k, "
                          "any terminate call fails, create fails} x failure counter 0 / 2, run through the real provider; non-trivial: a case in which some step failed",
@@ -146,9 +146,10 @@ PLANS["C19"] = dict(kind="func", stages=[aws_stage([GRID_Q], [GRID_T], max_q=150
                     rule="provider level: every (min, desired, instance list, node list with members / foreign nodes at every position, failing terminate) of the grid run through the real "
                          "NodeGroup.DeleteNodes; controller level: order of cloud and Node deletes along histories and model states",
                     required_facts=["del-not-in-group", "del-all-terminated", "del-refused-whole", "del-terminate-failed"], assumptions=AWS_ASSUMPTIONS + COMMON_ASSUMPTIONS,
-                    also_ctl=ctl(["force", "batches", "linger"], ["reap", "force", "batches", "linger"],
-                                 [D("reap", faults=30, odd=True), D("mix", faults=25, lag=True)],
-                                 [D("reap", n=60, steps=100, procs=8, faults=30, odd=True), D("mix", n=60, steps=100, procs=8, faults=25, lag=True)],
+                    also_ctl=ctl(["force", "batches", "linger", "swap"], ["reap", "force", "batches", "linger", "swap"],
+                                 [D("reap", faults=30, odd=True), D("mix", faults=25, lag=True), D("swap", n=16, steps=70, groups=2, faults=10, dry=0)],
+                                 [D("reap", n=60, steps=100, procs=8, faults=30, odd=True), D("mix", n=60, steps=100, procs=8, faults=25, lag=True),
+                                  D("swap", n=60, steps=100, procs=8, groups=2, faults=10, dry=0)],
                                  "see provider level", ["C19:node-deletes", "C19:terminate-failed", "C19:not-in-group", "C19:down-to-minimum"]))
 
 FUNC_ASSUMPTIONS = [
@@ -168,11 +169,11 @@ PLANS["C05"] = dict(kind="func", stages=[calc_stage("delta", max_t=150000)],
                          "as the controller chains them; controller level: scale-up scans of histories; non-trivial: a point above the threshold or a scale-up from zero",
                     required_facts=["C05:above-threshold", "C05:exactly-on-threshold", "C05:memory-bound", "C05:cpu-bound", "C05:from-zero-cached", "C05:from-zero-no-cache", "C05:large-magnitude"],
                     assumptions=FUNC_ASSUMPTIONS + COMMON_ASSUMPTIONS,
-                    also_ctl=ctl(["updown"], ["updown"],
+                    also_ctl=ctl(["updown", "agedup"], ["updown", "agedup"],
                                  [D("up", faults=0, dry=0, fine=True), D("mix", faults=0, dry=0, fine=True), D("fromzero", n=12, steps=60, groups=1, faults=0, dry=0)],
                                  [D("up", n=60, steps=100, procs=8, faults=0, dry=0, fine=True), D("mix", n=60, steps=100, procs=8, faults=0, dry=0, fine=True),
                                   D("fromzero", n=60, steps=70, procs=8, groups=1, faults=0, dry=0)],
-                                 "see function level", ["C05:scale-up", "C05:ctl-from-zero"]))
+                                 "see function level", ["C05:scale-up", "C05:ctl-from-zero", "C05:scale-up-with-trigger"]))
 PLANS["C13"] = dict(kind="func", stages=[calc_stage("pods"), calc_stage("nodes"), calc_stage("delta", max_q=1500, max_t=30000)],
                     rule="cases: every pod shape of the universe (0-3 containers, 0-2 init containers, overhead, missing requests, quantities in mixed notations) singly and in sampled bags listed in 4 orders; "
                          "node allocatable lists in 4 orders; the utilisation grid; controller level: request / capacity / percent gauges after every scan of the histories",
@@ -200,7 +201,7 @@ PLANS["C16"] = dict(kind="func", stages=[dict(gen=dict(quick=[("ConfigGrid.tla",
                                     "C16:rejected-cool-down", "C16:rejected-min-max", "C16:rejected-taint-effect", "C16:rejected-lifecycle", "C16:rejected-max-node-age"],
                     assumptions=FUNC_ASSUMPTIONS + ["the decode half is a differential test (YAML vs JSON vs intent) driven by TLC-generated cases; documented keys are those of the example block of docs/configuration/nodegroup.md"])
 
-PLANS["C12"] = ctl(["multi"], ["multi"],
+PLANS["C12"] = ctl(["multi", "multipin"], ["multi", "multipin"],
                    [D("mix", groups=3, faults=25), D("reap", groups=3, faults=25, odd=True)],
                    [D("mix", n=60, steps=100, procs=8, groups=3, faults=25), D("reap", n=60, steps=100, procs=8, groups=3, faults=25, odd=True)],
                    "model: random behaviours (TLC simulation) of the two-group model incl. the group named default, with the isolation invariant (blanking or dry-flipping one group "
@@ -209,7 +210,7 @@ PLANS["C12"] = ctl(["multi"], ["multi"],
                    ["C12:multi-group", "C12:failure-before-last-group", "C12:default-group", "C12:twin-compared", "C12:twin-other-group-acts"])
 PLANS["C12"]["emit_rate"] = dict(quick=3, thorough=3)
 PLANS["C12"]["iso_drives"] = dict(quick=[D("mix", n=14, steps=80, procs=4)], thorough=[D("mix", n=60, steps=100, procs=8), D("reap", n=40, steps=100, procs=8)])
-PLANS["C11"]["families"] = dict(quick=["dry", "multidry", "all_dry"], thorough=["dry", "multidry", "all_dry"])
+PLANS["C11"]["families"] = dict(quick=["dry", "drybad", "multidry", "all_dry"], thorough=["dry", "drybad", "multidry", "all_dry"])
 
 LOOP_STAGE = dict(gen=dict(quick=[("Loop.tla", "Loop.cfg", {})], thorough=[("Loop.tla", "Loop.cfg", {"MaxScan": "5"})]), cmd="loop", trace="TraceLoop",
                   max_cases=dict(quick=60, thorough=250))
@@ -220,6 +221,7 @@ PLANS["C20"] = dict(kind="func", stages=[LOOP_STAGE], also_ctl=PLANS["C20"], rul
                     assumptions=COMMON_ASSUMPTIONS)
 
 # hidden controller memory about annotations only shows along one controller lifetime: more TLC-generated behaviours for C10
+PLANS["C19"]["also_ctl"]["sim"] = dict(quick=dict(num=12, depth=40), thorough=dict(num=120, depth=60))   # provider memory across scans
 PLANS["C10"]["sim"] = dict(quick=dict(num=15, depth=45), thorough=dict(num=150, depth=60))
 PLANS["C03"]["proofs"] = True   # TaintClampKeepsMinimum etc. (ArithLemmas.tla, TLAPS) for unbounded node counts
 PLANS["C04"]["proofs"] = True   # CloudTargetWithinBound, ClampLandsOnBound, NoHeadroomNoRequest
